@@ -36,6 +36,46 @@ ATOMS = [
     ("+", "y:+"), ("-", "y:-"), ("...", "y:..."), ("+a", "y:+a"), ("-x.y", "y:-x.y"), ("<=?", "y:<=?"), ("!$%&*/:<=>?@^_~", "y:!$%&*/:<=>?@^_~"),
     ("|a b|", "y:a\\u{20}b"), ("||", "y:"), ("|(;|", "y:\\u{28};"),
 ]
+NAMED_CHARS = {"alarm": 7, "backspace": 8, "delete": 127, "escape": 27, "newline": 10, "null": 0, "return": 13, "space": 32, "tab": 9}
+ID_INITIAL = "abcdefghijklmnopqrstuvwxyzABCDEFGHIJKLMNOPQRSTUVWXYZ!$%&*/:<=>?@^_~"
+ID_SUBSEQUENT = ID_INITIAL + "0123456789+-.@"
+STRING_PIECES = [("a", "a"), ("x", "x"), ("Z", "Z"), (" ", " "), ("(", "("), (")", ")"), (";", ";"), ("|", "|"), ("#", "#"), ("'", "'"),
+                 ("\\n", "\n"), ("\\t", "\t"), ("\\\\", "\\"), ('\\"', '"'), ("\\x41;", "A"), ("\\x3bb;", "\u03bb"), ("\n", "\n"), ("\u03bb", "\u03bb")]
+
+
+def atom(rng):
+    """(source text, canonical datum) of one atom: the fixed list above, or one drawn from a whole token class - every
+    printable character as a character literal, hex and named characters, identifiers over the full identifier alphabet,
+    integers over the i32 range, unreduced ratios, strings made of plain characters, delimiters and escapes"""
+    k = rng.random()
+    if k < 0.4:
+        return rng.choice(ATOMS)
+    if k < 0.55:
+        j = rng.random()
+        if j < 0.6:
+            c = rng.randrange(33, 127)
+            return "#\\" + chr(c), "c:%d" % c
+        if j < 0.7:
+            c = rng.choice([0x3bb, 0xe9, 0x4e2d, 0x1f600])
+            return "#\\" + chr(c), "c:%d" % c
+        if j < 0.85:
+            c = rng.choice([rng.randrange(0, 0x80), rng.randrange(0x80, 0xd800), rng.randrange(0xe000, 0x110000)])
+            return "#\\x" + rng.choice(["%x", "%X", "%04x"]) % c, "c:%d" % c
+        nm = rng.choice(sorted(NAMED_CHARS))
+        return "#\\" + nm, "c:%d" % NAMED_CHARS[nm]
+    if k < 0.7:
+        name = rng.choice(ID_INITIAL) + "".join(rng.choice(ID_SUBSEQUENT) for _ in range(rng.randrange(0, 6)))
+        return name, "y:" + name
+    if k < 0.8:
+        n = rng.choice([rng.randrange(-2**31, 2**31), rng.randrange(-300, 300)])
+        return (("+" if n >= 0 and rng.random() < 0.2 else "") + str(n)), "i:%d" % n
+    if k < 0.87:
+        n, d = rng.randrange(-999, 1000), rng.randrange(1, 1000)
+        return "%d/%d" % (n, d), "q:%d/%d" % (n, d)
+    pieces = [rng.choice(STRING_PIECES) for _ in range(rng.randrange(0, 6))]
+    return '"' + "".join(p[0] for p in pieces) + '"', 's:"' + esc("".join(p[1] for p in pieces)) + '"'
+
+
 SELF_DELIM_END = ('"', "|")     # strings and |idents| end with their own closing character
 
 
@@ -43,7 +83,7 @@ def gen_tree(rng, depth):
     """-> (tokens as list of source strings, canonical datum)"""
     r = rng.random()
     if depth <= 0 or r < 0.35:
-        src, can = rng.choice(ATOMS)
+        src, can = atom(rng)
         return [src], can
     if r < 0.7:
         n = rng.randrange(0, 5)
@@ -51,7 +91,7 @@ def gen_tree(rng, depth):
         toks = ["("] + [t for it in items for t in it[0]]
         can = "(" + " ".join(it[1] for it in items)
         if n > 0 and rng.random() < 0.2:
-            tail_src, tail_can = rng.choice(ATOMS) if rng.random() < 0.7 else vec(rng, depth - 1)
+            tail_src, tail_can = atom(rng) if rng.random() < 0.7 else vec(rng, depth - 1)
             if isinstance(tail_src, str):
                 tail_src = [tail_src]
             toks += ["."] + tail_src
@@ -89,7 +129,7 @@ def render(rng, toks):
         out.append(t)
         if i + 1 < len(toks):
             nxt = toks[i + 1]
-            self_delim = t in ("(", ")", "'", "#(") or t[-1:] in SELF_DELIM_END and len(t) > 1
+            self_delim = t in ("(", ")", "'", "#(") or t[:1] in SELF_DELIM_END and len(t) > 1
             nxt_delim = nxt[0] in DELIMS
             out.append(sep(rng, not (self_delim or nxt_delim)))
     return rng.choice(["", " ", "\n", "; lead\n"]) + "".join(out) + rng.choice(["", " ", "\n", " ; trailing"])
@@ -191,6 +231,27 @@ def run(rep, tier, rng):
                            "text": text, "expected": "D " + can, "implementation": a, "model": b})
         elif a != b:
             rep.violation({"broken": "correspondence Read model <-> parser.rs", "text": text, "implementation": a, "model": b}, no_input=True)
+    # (3) every printable character as a character literal, every single-character identifier, in three surroundings
+    cases3, expect3 = [], {}
+    for c in list(range(33, 127)) + [0xa1, 0x3bb, 0x4e2d]:
+        for j, (pre, post, wrap) in enumerate([("", "", "%s"), ("(", ")", "(%s)"), ("#(1 ", " 2)", "#(i:1 %s i:2)")]):
+            cid = "c%d_%d" % (c, j)
+            cases3.append((cid, "read", [pre + "#\\" + chr(c) + post]))
+            expect3[cid] = "D " + wrap % ("c:%d" % c)
+    for ch in ID_INITIAL:
+        cases3.append(("y%d" % ord(ch), "read", ["(" + ch + ")"]))
+        expect3["y%d" % ord(ch)] = "D (y:%s)" % ch
+    impl3 = C.run_hx(cases3)
+    model3 = C.run_driver(cases3)
+    for cid, _, f in cases3:
+        rep.count()
+        rep.nontrivial(("class", f[0]))
+        a, b = impl3.get(cid), model3.get(cid)
+        if a != [expect3[cid]]:
+            rep.violation({"what": "a token of a supported class is not read as the datum it denotes", "text": f[0],
+                           "expected": expect3[cid], "implementation": a, "model": b})
+        elif a != b:
+            rep.violation({"broken": "correspondence Read model <-> parser.rs", "text": f[0], "implementation": a, "model": b}, no_input=True)
     # known findings
     for kf in C.known_findings(PROP):
         if kf.get("status") == "open" and kf.get("id") == "sharp-after-sharp-token":
@@ -206,8 +267,10 @@ def main(tier, seed):
     rep = C.Report(PROP, tier, seed)
     rng = random.Random(seed)
     rep.cov["rule"] = ("(1) every string of length <= 4 (thorough 5) over ( ) ' . # \" ; | \\ + - 1 a e / space LF, lexer and reader; "
-                       "(2) random datum trees (atoms of every supported token class, proper/dotted lists, vectors, quote; depth <= 4) "
-                       "rendered with random separators and comments; distinct = distinct texts that lex without error / distinct tree texts")
+                       "(2) random datum trees (atoms drawn from every supported token class: any printable / hex / named character, identifiers over "
+                       "the whole identifier alphabet, i32 integers, ratios, strings with escapes; proper/dotted lists, vectors, quote; depth <= 4) "
+                       "rendered with random separators and comments; (3) every printable character as a character literal and every "
+                       "one-character identifier, alone, in a list and in a vector; distinct = distinct texts that lex without error / distinct tree texts")
     rep.cov["exhaustive"] = True
     ok = C.standard_proof_phase(rep, MODULES, directed_search=lambda r: run(r, tier, rng))
     if ok:
